@@ -457,6 +457,21 @@ def gen_op(rng, t, cfg, ids_seen):
     tids = sorted({t.get_track_id(x) for x in ns})
     tid = rng.choice(tids) if tids and rng.random() < 0.6 else t.get_next_track_id()
     f = rng.random() < 0.4
+    # directed: a new label over ALL pixels of both daughters of one division, into the dividing parent's track
+    # (the nested UserAddNode is refused after two UserDeleteNode sub-edits: rollback of several dependent groups)
+    fam = [(pp, list(g.successors(pp))) for pp in ns if g.out_degree(pp) == 2]
+    fam = [(pp, ds) for pp, ds in fam if t.get_time(ds[0]) == t.get_time(ds[1])]
+    if fam and rng.random() < 0.12:
+        pp, ds = rng.choice(fam)
+        tm = int(t.get_time(ds[0]))
+        fl = seg[tm].reshape(-1)
+        idx = sorted(int(i) for i in np.nonzero((fl == ds[0]) | (fl == ds[1]))[0])
+        if idx:
+            unused = [i for i in range(1, 60) if i not in g and not (seg == i).any()]
+            # the refusal must survive the deletion of the daughters: take the track of ANOTHER dividing node
+            others = [q for q in ns if q != pp and g.out_degree(q) == 2 and t.get_time(q) < tm]
+            tid_ = int(t.get_track_id(rng.choice(others))) if others else int(t.get_track_id(pp))
+            new, tid, f = rng.choice(unused), tid_, rng.random() < 0.25
 
     def do_paint():
         flat = t.segmentation[tm].reshape(-1)
